@@ -841,6 +841,43 @@ func (st *State) loopEnv(fr *Frame, li *loopInfo) *Env {
 		}
 		if v, ok := fr.vals[p]; ok {
 			env.vars[name] = envVar{v, p.Type()}
+			if name != "idx" && env.locals != nil {
+				env.locals[name] = true
+			}
+		}
+	}
+	if _, ok := env.vars["idx"]; !ok {
+		// not a range loop (any more): if the head has exactly one counter of the form i := 0; ...; i++, the
+		// invariant's range index idx is read as i-1 (the last element already processed)
+		var cands []*ssa.Phi
+		for _, in := range li.head.Instrs {
+			p, ok := in.(*ssa.Phi)
+			if !ok {
+				break
+			}
+			if b, ok := p.Type().Underlying().(*types.Basic); !ok || b.Kind() != types.Int || len(p.Edges) != 2 {
+				continue
+			}
+			zero, step := false, false
+			for _, e := range p.Edges {
+				if c, ok := e.(*ssa.Const); ok && c.Value != nil && c.Value.ExactString() == "0" {
+					zero = true
+				}
+				if bo, ok := e.(*ssa.BinOp); ok && bo.Op == token.ADD && bo.X == ssa.Value(p) {
+					if c, ok := bo.Y.(*ssa.Const); ok && c.Value != nil && c.Value.ExactString() == "1" {
+						step = true
+					}
+				}
+			}
+			if zero && step {
+				cands = append(cands, p)
+			}
+		}
+		if len(cands) == 1 {
+			if v, ok := fr.vals[cands[0]]; ok {
+				env.vars["idx"] = envVar{Sub(st.scalar(v), IntLit(1)), cands[0].Type()}
+				st.e.note(st.u.name, "assumption", fmt.Sprintf("loop %d of %s is not a range loop; the invariants' range index idx is read as %s-1", li.ordinal, fnKey(fr.fn), cands[0].Comment))
+			}
 		}
 	}
 	// visited set of a map-range loop; byte position of a string-range loop (strpos)
@@ -906,9 +943,11 @@ func (st *State) assumeInvariant(fr *Frame, li *loopInfo) {
 		return
 	}
 	env := st.loopEnv(fr, li)
+	env.assumeInv = true
 	for _, c := range li.spec.Invs {
 		st.assume(st.elabBool(env, c.E))
 	}
+	env.assumeInv = false
 	// vacuity probe (once per loop): the assumed invariant must be satisfiable together with the path so far
 	if len(li.spec.Invs) > 0 {
 		key := fmt.Sprintf("%s#%d", fr.fn.Name(), li.ordinal)
